@@ -152,17 +152,17 @@ def to_case(s):
 
 # ------------------------------------------------------------------ implementation side
 _state = {}
-FRESH = {"headers": [["Cache-Control", "max-age=3600"]]}
-STALE = {"cond304": True, "headers": [["Expires", "Thu, 01 Jan 2015 00:00:00 GMT"], ["Last-Modified", "Wed, 01 Jan 2014 00:00:00 GMT"]]}
+SPEC_FRESH = {"headers": [["Cache-Control", "max-age=3600"]]}
+SPEC_STALE = {"cond304": True, "headers": [["Expires", "Thu, 01 Jan 2015 00:00:00 GMT"], ["Last-Modified", "Wed, 01 Jan 2014 00:00:00 GMT"]]}
 
 
 def _one(args):
     sq, org, s, rid = args
     spec = {"body": "b-" + rid}
     if s["cache"] == "fresh":
-        spec.update(FRESH)
+        spec.update(SPEC_FRESH)
     elif s["cache"] == "stale":
-        spec.update(STALE)
+        spec.update(SPEC_STALE)
     url = org.url(spec, rid)
     if s["cache"] != "none":
         r0, _ = lab.get(sq.port, url)            # prime the cache with a plain GET
@@ -272,7 +272,8 @@ def oracle(s, obs):
         if n == 0 and forwarded:
             return ("oracle:maxforwards-zero-forwarded", "%s with Max-Forwards: %s reached the origin" % (s["method"], mf[0]))
         if n > 0 and forwarded:
-            got = re.search(r" mf=(\S+)", obs).group(1)
+            m = re.search(r" mf=(\S+)", obs)
+            got = m.group(1) if m else "?"
             if got != str(n - 1):
                 if got == "-" and n > 2 ** 63 - 1:
                     return ("oracle:maxforwards-dropped:beyond-int64",
